@@ -23,6 +23,7 @@ mod c17;
 mod c18;
 mod c19;
 mod c20;
+mod c22;
 mod c24;
 mod c25;
 mod util;
@@ -104,6 +105,8 @@ fn search(twin: &str, case: Option<&str>, seed: u64) -> Option<Value> {
         c08::search(twin, case, seed)
     } else if twin.starts_with("c20.") {
         c20::search(twin, case, seed)
+    } else if twin.starts_with("c22.") {
+        c22::search(twin, case, seed)
     } else if twin.starts_with("c24.") {
         c24::search(twin, case, seed)
     } else if twin.starts_with("c25.") {
@@ -140,6 +143,8 @@ fn replay(twin: &str, input: &Value) -> Value {
         c08::replay(twin, input)
     } else if twin.starts_with("c20.") {
         c20::replay(twin, input)
+    } else if twin.starts_with("c22.") {
+        c22::replay(twin, input)
     } else if twin.starts_with("c24.") {
         c24::replay(twin, input)
     } else if twin.starts_with("c25.") {
@@ -176,6 +181,8 @@ fn sweep(twin: &str, seed: u64) -> Value {
         c08::sweep(twin, seed)
     } else if twin.starts_with("c20.") {
         c20::sweep(twin, seed)
+    } else if twin.starts_with("c22.") {
+        c22::sweep(twin, seed)
     } else if twin.starts_with("c24.") {
         c24::sweep(twin, seed)
     } else if twin.starts_with("c25.") {
